@@ -18,8 +18,12 @@ class SetMutator(CollectionAttrMutator):
     HELPER_METHODS = SET_METHODS
 
     def _prepare_items(self):
-        for value in set(self.collection):
-            self.transform_item(value, self.prepare_item)
+        # Re-add all items rather than transforming them one by one in place: a
+        # prepared item may equal another item that has not been prepared yet,
+        # which would then be discarded instead of prepared.
+        items = list(self.collection)
+        self.collection.clear()
+        self.add_items(items)
 
     def _extractor(self, value_or_index, raise_if_missing=False):
         if raise_if_missing and value_or_index not in self.collection:
